@@ -112,6 +112,10 @@ theorem offset_right_intermediate_le (n : Nat) (E I : Arr) (h : Valid n E I) (t 
   rw [e] at this
   exact this
 
+-- the intermediate values of the loops for the index (1,2,3) in 2 x 3 x 4: left 3, 11, 23; right 1, 5, 23
+example : (List.range 3).map (fun t => loopFrom (Gen.left_step 3 (arr [1,2,3]) (arr [2,3,4])) t 1 3) = [3, 11, 23] ∧
+    (List.range 3).map (fun t => loopFrom (Gen.right_step 3 (arr [1,2,3]) (arr [2,3,4])) t 0 1) = [1, 5, 23] := by decide
+
 -- non-vacuity: a 2 x 3 x 4 index space, the index (1,2,3), a step in dimension 1, the last offset
 example : Valid 3 (arr [2,3,4]) (arr [1,2,3]) ∧ offsetLeft 3 (arr [2,3,4]) (arr [1,2,3]) = 23 ∧
     offsetRight 3 (arr [2,3,4]) (arr [1,2,3]) = 23 ∧ product 3 (arr [2,3,4]) = 24 ∧
@@ -468,8 +472,11 @@ theorem extents_from_dynamic (p : Pattern) (c : List Nat) (hc : compatible p c =
   extent_of_initDynamic p c hc e (Or.inr he)
 
 /-- converting an extents object to another extents type of the same rank whose static extents agree with its values
-    (`extents(const extents<I,e...>&)`) preserves every extent; since the offsets of left/right mappings depend on the
-    extents only through `extent(r)`, the converted mapping addresses identically -/
+    (`extents(const extents<I,e...>&)`) preserves every extent — for ARBITRARY static/dynamic patterns on both sides:
+    `o.pat` (source) and `q` (target) are unrelated lists, so a dimension may be static in the source and dynamic in the
+    target, dynamic in the source and static in the target, and the dynamic extents may sit at different positions of
+    the two `dynamic_extents_` arrays (the conversion is position-aware: it goes through `as_array(other)`, all `rank`
+    values, and `init_dynamic_extents` picks the target's dynamic positions) -/
 theorem convert_extents_preserves (q : Pattern) (o e : Extents) (hq : compatible q o.toList = true)
     (he : Extents.convert q o = some e) : ∀ r, r < o.rank → e.extent r = o.extent r := by
   unfold Extents.convert at he
@@ -530,6 +537,15 @@ theorem extents_default (p : Pattern) (r : Nat) (hr : r < p.length) :
   exact ⟨r, Nat.zero_le _, by omega, h0⟩
 
 example : (Extents.dflt [some 2, none, some 3]).toList = [2,0,3] := by decide
+
+-- non-vacuity of the conversion theorems with dynamic extents at DIFFERENT positions: extents<int,dyn,3>{5} →
+-- extents<long,5,dyn> is 5 x 3 (copying the stored dynamic values by their position in the array would give 5 x 5);
+-- extents<int,dyn,dyn,4>{2,3} → extents<long,2,dyn,dyn> is 2 x 3 x 4; and a left mapping over either addresses alike
+example : compatible [some 5, none] (Extents.toList ⟨[none, some 3], [5]⟩) = true ∧
+    (Extents.convert [some 5, none] ⟨[none, some 3], [5]⟩).map (fun e => (e.dyn, e.toList)) = some ([3], [5,3]) ∧
+    (Extents.convert [some 2, none, none] ⟨[none, none, some 4], [2,3]⟩).map (fun e => (e.dyn, e.toList)) = some ([3,4], [2,3,4]) ∧
+    ((Extents.convert [some 5, none] ⟨[none, some 3], [5]⟩).map fun e => offsetLeft 2 e.extent (arr [4,2])) = some 14 ∧
+    offsetLeft 2 (Extents.extent ⟨[none, some 3], [5]⟩) (arr [4,2]) = 14 := by decide
 
 -- non-vacuity: extents<I, 2, dyn, 3, dyn> from (2,5,3,7) and from the dynamic values (5,7)
 example : makeDynamicIndex [some 2, none, some 3, none] = [0,0,1,1,2] ∧
